@@ -2330,6 +2330,63 @@ func lemmaForwardSession(raw *rawEnvelope) (e *Session, e3 *Session, accepted bo
 //@   ensures err == nil ==> t != nil && !payloadnil(t) && fresh(t) && t.nRecv == 0 && t.nSent == 0
 //@   note the transport factory returns a fresh, unused connection (or an error)
 
+// The high-level client's send operations (client.go; C04 "reported sent means
+// written once", C05, C06): each obtains a channel and performs exactly one
+// channel operation on it, returning that operation's outcome. How the channel
+// is obtained (the reconnect loop of getOrBuildChannel, with sleeps and a lock
+// channel) is summarised, not verified.
+//@ func (*Client).getOrBuildChannel :: (c, ctx) (result0, result1)
+//@   props C04 C05 C06
+//@   trusted reconnect loop (retries with back-off, lock channel, concurrent listener): only the shape of its result is used - a channel whose tables exist, or an error
+//@   requires c != nil
+//@   modifies everything
+//@   ensures result1 == nil ==> result0 != nil && result0.channel != nil && result0.channel.processingCmds != nil
+//@   ensures result1 != nil ==> result0 == nil
+
+//@ func (*Client).SendMessage :: (c, ctx, msg) (result)
+//@   props C04 C06
+//@   requires c != nil
+//@   panics only-if msg == nil
+//@   modifies everything
+//@   checks [C04] @sentonce result == nil ==> ncalls("(*channel).SendMessage") == 1
+//@   checks [C04] @atmostonce ncalls("(*channel).SendMessage") <= 1
+//@   checks [C04,C06] @nochannelnosend nerr("(*Client).getOrBuildChannel") > 0 ==> result != nil && ncalls("(*channel).SendMessage") == 0
+//@   checks [C04,C06] @errorreturned nerr("(*channel).SendMessage") > 0 ==> result != nil
+//@   oncall [C04] (*channel).SendMessage : a_msg == msg
+
+//@ func (*Client).SendNotification :: (c, ctx, not) (result)
+//@   props C04 C06
+//@   requires c != nil
+//@   panics only-if not == nil
+//@   modifies everything
+//@   checks [C04] @sentonce result == nil ==> ncalls("(*channel).SendNotification") == 1
+//@   checks [C04] @atmostonce ncalls("(*channel).SendNotification") <= 1
+//@   checks [C04,C06] @nochannelnosend nerr("(*Client).getOrBuildChannel") > 0 ==> result != nil && ncalls("(*channel).SendNotification") == 0
+//@   checks [C04,C06] @errorreturned nerr("(*channel).SendNotification") > 0 ==> result != nil
+//@   oncall [C04] (*channel).SendNotification : a_not == not
+
+//@ func (*Client).SendRequestCommand :: (c, ctx, cmd) (result)
+//@   props C04 C06
+//@   requires c != nil
+//@   panics only-if cmd == nil
+//@   modifies everything
+//@   checks [C04] @sentonce result == nil ==> ncalls("(*channel).SendRequestCommand") == 1
+//@   checks [C04] @atmostonce ncalls("(*channel).SendRequestCommand") <= 1
+//@   checks [C04,C06] @nochannelnosend nerr("(*Client).getOrBuildChannel") > 0 ==> result != nil && ncalls("(*channel).SendRequestCommand") == 0
+//@   checks [C04,C06] @errorreturned nerr("(*channel).SendRequestCommand") > 0 ==> result != nil
+//@   oncall [C04] (*channel).SendRequestCommand : a_cmd == cmd
+
+//@ func (*Client).ProcessCommand :: (c, ctx, cmd) (result0, result1)
+//@   props C04 C05 C06
+//@   requires c != nil && ctx != nil
+//@   panics only-if true  ## nil command / empty id panic inside the channel; the summary of getOrBuildChannel may modify anything, so the condition cannot be related to the entry state here
+//@   modifies everything
+//@   ensures [C05] @ownresponse result1 == nil ==> result0 != nil && result0.ID == cmd.ID
+//@   checks [C04,C05] @atmostonce ncalls("(*channel).ProcessCommand") <= 1
+//@   checks [C04,C06] @nochannelnosend nerr("(*Client).getOrBuildChannel") > 0 ==> result1 != nil && ncalls("(*channel).ProcessCommand") == 0
+//@   checks [C04,C06] @errorreturned nerr("(*channel).ProcessCommand") > 0 ==> result1 != nil
+//@   oncall [C05] (*channel).ProcessCommand : a_reqCmd == cmd
+
 //@ func (*Client).buildChannel :: (c, ctx) (result0, result1)
 //@   props C08
 //@   requires c != nil && c.config != nil && ctx != nil
